@@ -244,8 +244,9 @@ pub fn gen_session(rng: &mut Rng, budget: usize, idx: usize) -> Value {
                     4..=6 => 1000 + rng.below(9000) as usize,
                     _ => 20000 + rng.below(120000) as usize,
                 }
-                .min(left);
-                left -= len;
+                ;
+                let len = if len > left { 1 + rng.below(200) as usize } else { len };
+                left = left.saturating_sub(len);
                 ops.push(json!(["w", len, rng.next() % 1000000]));
                 if rng.chance(2, 3) {
                     ops.push(json!(["f"]));
@@ -271,8 +272,8 @@ pub fn gen_session(rng: &mut Rng, budget: usize, idx: usize) -> Value {
     if rng.chance(2, 3) {
         ops.push(json!(["z", true]));
         for _ in 0..(3 + rng.below(5)) {
-            let len = (500 + rng.below(6000) as usize).min(left);
-            left -= len;
+            let len = 500 + rng.below(6000) as usize;
+            left = left.saturating_sub(len);
             ops.push(json!(["w", len, rng.next() % 1000000]));
             ops.push(json!(["p", 0]));
         }
@@ -324,6 +325,7 @@ pub fn main(args: &[String]) -> i32 {
         if !sessions.iter().any(|s| s["mode"].as_str().unwrap_or("dumb") == mode) {
             continue;
         }
+        let _ = std::fs::write(format!("{}/current_session.json", out), json!({"mode": mode, "rates": [[65536, 0]], "ops": [], "calibration": true}).to_string());
         epilogues.insert(mode.to_string(), cal_epilogue(mode));
     }
     let mut coq = String::new();
